@@ -5,8 +5,11 @@ usage: seedtest.py <outdir> <k> <prop> [check ids...]
  2. apply the patch to /repo, run the given checks (quick), record which report a VIOLATION, undo the patch
  3. keep everything in /verif/seeded/<prop>-m<k>/"""
 import glob, json, os, re, shutil, subprocess, sys
-SCR = '/tmp/seedchk/wt'
+SCR = os.environ.get('SEED_SCR', '/tmp/seedchk/wt')
 ROOT = '/verif'
+# lane mode (several seeds in parallel): the checks run from a copy of /verif against the scratch worktree that holds the
+# patch (VERIF_REPO), /repo itself is not touched
+LANE_ROOT = os.environ.get('SEED_LANE_ROOT')
 
 
 def sh(cmd, **kw):
@@ -53,26 +56,31 @@ def main():
         res['confirmed'] = False
     else:
         res['confirmed'] = True
-    # run the checks on /repo with the patch
-    st = sh('git -C /repo status --porcelain --untracked-files=no').stdout.strip()
-    if st:
-        print('/repo is not clean:', st); sys.exit(3)
-    a = sh('git -C /repo apply %s' % patch)
+    # run the checks on /repo with the patch (or, in lane mode, on the scratch worktree with the patch)
+    if LANE_ROOT:
+        sh('rm -rf %s/_build' % SCR)
+        a = sh('git -C %s apply %s' % (SCR, patch))
+    else:
+        st = sh('git -C /repo status --porcelain --untracked-files=no').stdout.strip()
+        if st:
+            print('/repo is not clean:', st); sys.exit(3)
+        a = sh('git -C /repo apply %s' % patch)
     det = {}
     try:
         for c in checks:
-            r = sh('cd %s && ./vcheck %s --tier quick' % (ROOT, c))
+            r = sh('cd %s && VERIF_REPO=%s ./vcheck %s --tier quick' % (LANE_ROOT, SCR, c)) if LANE_ROOT else sh('cd %s && ./vcheck %s --tier quick' % (ROOT, c))
             v = [l for l in r.stdout.splitlines() if l.startswith('VIOLATION')]
             keys = [l.strip()[5:] for l in r.stdout.splitlines() if l.strip().startswith('key: ')]
             det[c] = {'rc': r.returncode, 'violations': len(v), 'keys': keys[:6]}
             print('  check %s: rc=%d violations=%d %s' % (c, r.returncode, len(v), keys[:3]))
     finally:
-        sh('git -C /repo checkout -- .')
+        sh('git -C %s checkout -- .' % (SCR if LANE_ROOT else '/repo'))
     # restore evidence files changed by running on a mutated tree
-    sh('git -C %s checkout -- evidence' % ROOT)
+    if not LANE_ROOT:
+        sh('git -C %s checkout -- evidence' % ROOT)
     res['checks_run'] = det
     res['detected_by'] = [c for c, d in det.items() if d['rc'] == 1 and d['violations'] > 0]
-    res['ran'] = 'tools/seedtest.py: scratch worktree build + ctest + demo (clean/mutant), then ./vcheck <id> --tier quick on /repo with the patch applied, patch undone'
+    res['ran'] = 'tools/seedtest.py: scratch worktree build + ctest + demo (clean/mutant), then ./vcheck <id> --tier quick ' + ('from a copy of /verif with VERIF_REPO pointing at the scratch worktree that holds the patch' if LANE_ROOT else 'on /repo with the patch applied, patch undone')
     d = os.path.join(ROOT, 'seeded', '%s-%sm%s' % (prop, os.environ.get('SEEDTAG', ''), k))
     os.makedirs(d, exist_ok=True)
     shutil.copy(patch, os.path.join(d, 'patch.diff'))
